@@ -142,7 +142,7 @@ func permuteKeys(r *rand.Rand, c *cfg.Config) string {
 
 func checkC08(c *Ctx) error {
 	cfgN, runs, perms := c.Pick(48, 420), c.Pick(16, 60), c.Pick(4, 8)
-	c.Rule = fmt.Sprintf("%d configurations (half valid, half invalid with >=6 simultaneous defects per class; 6-8 entries in every mapping the tool ranges over: aliases incl. prefix-related names, functions, parameters, services, fields, files matched by several patterns) x %d fresh processes each, every run in its own working directory with relative paths, a perturbed environment and different previous content at the output path (none, longer, shorter) (HOME/GOPATH/GOMODCACHE/GOFLAGS/LANG/TZ/TERM/NO_COLOR unset or garbage, unrelated APP_* variables, PATH with and without a go command, parent directory with and without .go files of the same package) — sha256 of the -o file and of stdout must be constant per configuration; plus %d key permutations of every mapping of each valid configuration — the -o file must not change. A canary program built with the same toolchain shows that map iteration order really varies between these processes. distinct = distinct configuration; non-trivial = every ranged mapping has >=6 entries", cfgN, runs, perms)
+	c.Rule = fmt.Sprintf("%d configurations (half valid, half invalid with >=6 simultaneous defects per class; 6-8 entries in every mapping the tool ranges over: aliases incl. prefix-related names, functions, parameters, services, fields, files matched by several patterns) x %d fresh processes each, every run in its own working directory with relative paths, a perturbed environment and different previous content at the output path (none, longer, shorter), TMPDIR unset / missing / on another file system; every eighth valid configuration also with an output path that cannot be written (missing directory, path is a directory) (HOME/GOPATH/GOMODCACHE/GOFLAGS/LANG/TZ/TERM/NO_COLOR unset or garbage, unrelated APP_* variables, PATH with and without a go command, parent directory with and without .go files of the same package) — sha256 of the -o file and of stdout must be constant per configuration; plus %d key permutations of every mapping of each valid configuration — the -o file must not change. A canary program built with the same toolchain shows that map iteration order really varies between these processes. distinct = distinct configuration; non-trivial = every ranged mapping has >=6 entries", cfgN, runs, perms)
 	c.Assumptions = []string{"the schedule explored is the runtime's per-range map randomisation: detection is probabilistic (miss probability per 6-entry map and 16 runs < 1e-9), silence on a correct tree is certain", "stdout is compared with relative -i/-o arguments, since the report echoes them"}
 	w := c.W
 	if _, err := NewLabOnlyMod(c); err != nil {
@@ -207,6 +207,19 @@ func checkC08(c *Ctx) error {
 			env = append(env, "CLICOLOR_FORCE=1", "FORCE_COLOR=1")
 		}
 		env = append(env, fmt.Sprintf("APP_%d=%d", r.Intn(100), r.Intn(100)), "VERIF_ENV_0=x", "GONTAINER_DEBUG=1")
+		// where temporary files would go is not an input either: unset, a directory that does not exist, another file system, a private one
+		switch k % 4 {
+		case 1:
+			env = append(env, "TMPDIR="+filepath.Join(dir, "no-such-tmp"))
+		case 2:
+			if st, err := os.Stat("/dev/shm"); err == nil && st.IsDir() {
+				env = append(env, "TMPDIR=/dev/shm")
+			}
+		case 3:
+			t := filepath.Join(dir, "tmp")
+			_ = os.MkdirAll(t, 0o755)
+			env = append(env, "TMPDIR="+t)
+		}
 		return env
 	}
 	type group struct {
@@ -217,6 +230,7 @@ func checkC08(c *Ctx) error {
 		outSha  map[string]int
 		repSha  map[string]int
 		sample  map[string]string
+		outFault int // 0: writable output path; 1: its directory does not exist; 2: the path is a directory
 	}
 	groups := make([]*group, cfgN)
 	for i := range groups {
@@ -239,6 +253,14 @@ func checkC08(c *Ctx) error {
 			g.pats = []string{"in/*.yaml", "in/?.yaml", "i*/[a-f].yaml"}
 		}
 		groups[i] = g
+	}
+	// valid configurations whose output cannot be written: the failure report is a function of the inputs too
+	for i := 0; i < cfgN; i += 8 {
+		for fault := 1; fault <= 2; fault++ {
+			src := groups[i]
+			groups = append(groups, &group{conf: src.conf, valid: false, files: src.files, pats: src.pats, outFault: fault,
+				outSha: map[string]int{}, repSha: map[string]int{}, sample: map[string]string{}})
+		}
 	}
 	type job struct{ g, k int }
 	var jobs []job
@@ -266,9 +288,21 @@ func checkC08(c *Ctx) error {
 		for _, p := range g.pats {
 			args = append(args, "-i", p)
 		}
-		args = append(args, "-o", "out.go")
+		switch g.outFault {
+		case 1:
+			args = append(args, "-o", "no-such-dir/out.go")
+		case 2:
+			_ = os.MkdirAll(filepath.Join(dir, "out.go"), 0o755)
+			args = append(args, "-o", "out.go")
+		default:
+			args = append(args, "-o", "out.go")
+		}
 		// what is already at the output path is not an input either: nothing, a much longer file, a shorter one, a read-only one
-		switch j.k % 5 {
+		prev := j.k % 5
+		if g.outFault != 0 {
+			prev = 0
+		}
+		switch prev {
 		case 1:
 			_ = work.WriteFile(filepath.Join(dir, "out.go"), []byte("package old\n"+strings.Repeat("// previously generated, much longer than anything this run writes\n", 4000)))
 		case 2:
@@ -347,6 +381,9 @@ func checkC08(c *Ctx) error {
 	// (duplicate-pattern diagnostics name files: they must not be rendered relative to the cwd)
 	Par(len(groups), 16, func(gi int) {
 		g := groups[gi]
+		if g.outFault != 0 {
+			return
+		}
 		base := w.TempDir("c08a")
 		for _, f := range g.files {
 			_ = work.WriteFile(filepath.Join(base, f.Name), []byte(f.Content))
